@@ -4,10 +4,13 @@
 -/
 import Btcdeb
 import Driver.Tce
+import Driver.Spend
+import Driver.Pretend
 open Btcdeb
 namespace Driver
 
 def extraCmds : List (String × (Bool → List String → String)) :=
-  [ ("TCE", cmdTce) ]
+  [ ("TCE", cmdTce), ("PRUN", cmdPrun),
+    ("SPEND", fun spec a => if spec then cmdSpendSpec a else cmdSpendModel a) ]
 
 end Driver
